@@ -274,15 +274,21 @@ func (b *bufRun) sequence(steps []BStep) {
 				any = true
 				x := ws[i]
 				var nv []byte
+				// the merged result usually differs from the delta; every fourth one is the delta itself, bit for bit
+				// (a sum with an absent value, a maximum the delta wins): it is still a put of the result from here on
+				add := uint64(10)
+				if b.rnd.Intn(4) == 0 {
+					add = 0
+				}
 				switch {
 				case !x.isStr && len(x.val) == 2:
-					nv = binary.BigEndian.AppendUint16(nil, binary.BigEndian.Uint16(x.val)+10)
+					nv = binary.BigEndian.AppendUint16(nil, binary.BigEndian.Uint16(x.val)+uint16(add))
 					r.SwapUint16(binary.BigEndian.Uint16(nv))
 				case !x.isStr && len(x.val) == 4:
-					nv = binary.BigEndian.AppendUint32(nil, binary.BigEndian.Uint32(x.val)+10)
+					nv = binary.BigEndian.AppendUint32(nil, binary.BigEndian.Uint32(x.val)+uint32(add))
 					r.SwapUint32(binary.BigEndian.Uint32(nv))
 				case !x.isStr && len(x.val) == 8:
-					nv = binary.BigEndian.AppendUint64(nil, binary.BigEndian.Uint64(x.val)+10)
+					nv = binary.BigEndian.AppendUint64(nil, binary.BigEndian.Uint64(x.val)+add)
 					r.SwapUint64(binary.BigEndian.Uint64(nv))
 				default:
 					n := len(x.val)
@@ -307,6 +313,9 @@ func (b *bufRun) sequence(steps []BStep) {
 					nv = make([]byte, n)
 					for j := range nv {
 						nv[j] = byte(b.rnd.Intn(256))
+					}
+					if add == 0 {
+						nv = append([]byte{}, x.val...)
 					}
 					r.SwapBytes(nv)
 				}
